@@ -2,6 +2,7 @@
 # False-alarm run: applies every benign (property-preserving) change under /verif/seeded/benign to a scratch
 # worktree of /repo in turn and runs all quick checks against it (exit 0 and no VIOLATION expected).
 # Usage: tools/run_benign.sh <worktree> [name-filter]     (a git worktree of /repo outside /repo and /verif)
+# BENIGN_PROPS="C13 C20" restricts the checks that are run.
 set -u
 cd "$(dirname "$0")/.."
 WT="${1:?worktree}"
@@ -10,7 +11,7 @@ for patch in seeded/benign/*${2:-}*.diff; do
   name=$(basename "$patch" .diff)
   git -C "$WT" checkout -q -- . ; git -C "$WT" clean -qfd -e Cargo.lock -e target >/dev/null 2>&1
   if ! git -C "$WT" apply "$PWD/$patch" 2>/dev/null && ! git -C "$WT" apply --3way "$PWD/$patch" >/dev/null 2>&1; then echo "SKIP   $name: patch does not apply"; continue; fi
-  for prop in C12 C13 C17 C18 C20; do
+  for prop in ${BENIGN_PROPS:-C12 C13 C17 C18 C20}; do
     out=$(VERIF_REPO="$WT" ./check "$prop" quick --no-evidence 2>&1); code=$?
     if [ $code -eq 0 ] && ! echo "$out" | grep -q "^VIOLATION"; then ok=$((ok+1)); echo "SILENT $name $prop"; else bad=$((bad+1)); echo "ALARM  $name $prop exit=$code: $(echo "$out" | grep -m2 -E 'VIOLATION|HARNESS|rule=|error' | tr '\n' ' ' | cut -c1-300)"; fi
   done
